@@ -143,6 +143,17 @@ func (b *Built) Args(r *rand.Rand) []am.Arg {
 	case "nilvalue":
 		out = append(out, am.Named("zz", nil), am.Typed(nil), am.NamedSubtype("zz", nil, "s"), am.TypedSubtype(nil, "s"), am.ConverterFunc(nil),
 			am.Logger(nil), am.ConverterGen(nil), am.FilterInput(nil), am.FilterOutput(nil))
+	case "typednil":
+		// a nil pointer of the first parameter's (pointer) type, given last under that parameter's key
+		if l := b.S.Target.In[0]; true {
+			nilv := reflect.Zero(TypeOf(l.Type)).Interface()
+			switch {
+			case l.Name != "":
+				out = append(out, am.NamedSubtype(l.Name, nilv, l.Sub))
+			default:
+				out = append(out, am.TypedSubtype(nilv, l.Sub))
+			}
+		}
 	case "nonfunc":
 		out = append(out, am.Converter(42))
 	case "nilconv":
